@@ -957,6 +957,9 @@ func beginWithoutCommitMonitor(c Case, log []Obs) []core.Violation {
 func genPgLike(rng *rand.Rand) Case {
 	c := Case{Mode: "pg-like", PgLike: true}
 	s0 := uint64(1000 + rng.Intn(1000))
+	if rng.Intn(12) == 0 {
+		s0 = 0 // a first keepalive at 0/0
+	}
 	c.First = Event{Kind: "keepalive", Wal: s0, Reply: rng.Intn(2) == 0}
 	wal := s0
 	type txn struct {
@@ -1143,6 +1146,9 @@ func genPgLike(rng *rand.Rand) Case {
 func genSoup(rng *rand.Rand) Case {
 	c := Case{Mode: "soup"}
 	c.First = Event{Kind: "keepalive", Wal: uint64(rng.Intn(3000)), Reply: true}
+	if rng.Intn(10) == 0 {
+		c.First.Wal = 0 // the session starts at 0/0: every status update before the first progress carries 0
+	}
 	if rng.Intn(15) == 0 {
 		c.First = []Event{{Kind: "keepalive-bad"}, {Kind: "xlog", X: "begin", Txn: "1", Wal: 5}, {Kind: "timeout"}, {Kind: "nil"}, {Kind: "param"}}[rng.Intn(5)]
 	}
